@@ -4,7 +4,8 @@ set -e
 pkg="$1"; src=/tmp/wb/$pkg/verif
 cd "$src"
 git add -A -n . >/dev/null
-git status --porcelain | awk '{print $2}' | while read f; do
+base=$(git rev-list --max-parents=0 HEAD | tail -1)
+{ git diff --name-only "$base"; git ls-files --others --exclude-standard; } | sort -u | while read f; do
   case "$f" in
     lean/Clem.lean|lean/Driver/Main.lean|MANIFEST.json|harness/fingerprints.json|evidence/*|replays/*|DESIGN.md|known_findings.json|harness/core.py|BUILDING.md|lean/Clem/Gen/*) echo "SKIP $f"; continue;;
   esac
